@@ -259,6 +259,18 @@ profile(
     bad=lambda kw, t: _corrupt(kw, [["kind", "color"][t % 2]], "zz"),
     setf=lambda t: ("level", _n(t, 7)))
 
+# -- several differently named optional fields that receive an explicit None (the None option of every Optional
+#    must not be one object shared between fields)
+profile(
+    "optional-none",
+    "class K(Structure):\n    nick: Optional[String]\n    age: Optional[Integer]\n    user_id: Optional[Integer]\n"
+    "    name: String\n    tags: AnyOf[Set[String], None]\n",
+    "K",
+    val=lambda t: dict(name=_s(t), nick=None, age=_n(t, 1), user_id=None, tags={_s(t, 2)}) if t % 2 == 0 else
+    dict(name=_s(t), nick=_s(t, 1), age=None, user_id=_n(t, 3), tags=None),
+    bad=lambda kw, t: _corrupt(kw, [["name", "age"][t % 2]], [0.5]),
+    setf=lambda t: (["nick", "age", "user_id"][t % 3], None))
+
 # -- trusted deserialization of a "simple" class (cached simplicity level + cached flat mapper)
 profile(
     "trusted-simple",
